@@ -25,6 +25,10 @@ structure Env where
   outcome : Outcome          -- what `req()` does (`.panic` = it unwinds)
   nextUnwinds : Bool         -- rest: `next.ServeHTTP` unwinds
   acceptIfSeen : Bool        -- rest: value of the deferred condition on the status code the next handler wrote
+  acceptMarks : List Mark := []   -- what `accept()` ITSELF records (`marksIn progAccept`; the real code: nothing)
+  throttled : Bool := false       -- accept(): `dropRatio > 0`
+  forced : Bool := false          -- accept(): `lastPass > 0 && timex.Since(lastPass) > forcePassDuration`
+  drawLess : Bool := false        -- accept(): what `TrueOnProba(dropRatio)` answers
   deriving DecidableEq
 
 /-- value of the variable `err` -/
@@ -44,8 +48,11 @@ structure St where
   evs : List PEv := []
   err : Val := .nil
   succ : Bool := false
+  acceptVar : Bool := false          -- the local `accept` of loggedThrottle.doReq's closure
   cwWraps : Bool := false            -- `cw` is the code-recording wrapper of `w`
   cwSeesNext : Bool := false         -- `next` was served with `cw`: `cw.Code` is what the handler wrote
+  lastPassSets : Nat := 0            -- accept(): how often `b.lastPass.Set(timex.Now())` ran
+  draws : Nat := 0                   -- accept(): how many draws `TrueOnProba` consumed
   defers : List (List Tok) := []
   ending : Option Ending := none
   stuck : Bool := false
@@ -83,19 +90,48 @@ def St.stick (s : St) : St := { s with stuck := true }
 def St.emit (s : St) (e : PEv) : St := { s with evs := s.evs ++ [e] }
 
 /-- calls that have no effect on the breaker's accounting (metrics, logging) -/
-def effectFree (f : String) : Bool := f = "metrics.AddDrop" || f = "logc.Errorf"
+def effectFree (f : String) : Bool :=
+  f = "metrics.AddDrop" || f = "logc.Errorf" || f = "lt.errWin.add" || f = "p.errWin.add" || f = "stat.Report"
+
+/-- is the value of `err` a non-nil error (`.req`: the request's own result, nil iff it returned nil) -/
+def errNonNil (env : Env) (s : St) : Bool :=
+  match s.err with
+  | .nil => false
+  | .unavailable => true
+  | .req => env.outcome.ret ≠ .nil
+
+/-- the mark a call records, if it is one of the markers (or the window's `Add` behind them) -/
+def markOfCall (f : String) (args : List String) : Option Mark :=
+  if f = "b.markDrop" then some .drop
+  else if f = "b.markFailure" then some .fail
+  else if f = "b.markSuccess" then some .succ
+  else if f = "b.stat.Add" then some (if args = ["drop"] then .drop else if args = ["success"] then .succ else .fail)
+  else none
+
+/-- every mark a function body can record, on any of its paths, in source order.  For `accept()` this must be
+empty: the decision itself records nothing — the drop of a rejection is recorded by the caller (`doReq`, `allow`),
+exactly once.  (A `markDrop` inside `accept()` on top of the caller's one counts every rejection twice.) -/
+def marksIn (prog : List Tok) : List Mark :=
+  prog.filterMap fun | .call _ f args => markOfCall f args | _ => none
 
 /-- meaning of `[lhs :=] f(args)` -/
 def callSem (env : Env) (s : St) (lhs : List String) (f : String) (args : List String) : St :=
   if f = "b.accept" then
     -- the admission decision; its error lands in `err`
-    if lhs = ["err"] ∧ args = [] then { s with err := if env.verdict = .reject then .unavailable else .nil }
+    if lhs = ["err"] ∧ args = [] then
+      { env.acceptMarks.foldl (fun s m => s.emit (.mark m)) s with err := if env.verdict = .reject then .unavailable else .nil }
     else s.stick
-  else if f = "brk.Allow" then
+  else if f = "acceptable" then
+    -- the predicate handed in, applied to the request's result
+    if lhs = ["accept"] ∧ args = ["err"] ∧ s.err = .req then { s with acceptVar := acceptable env.custom env.outcome }
+    else s.stick
+  else if f = "p.promise.Accept" ∧ lhs = [] ∧ args = [] then s.emit (.mark .succ)
+  else if f = "p.promise.Reject" ∧ lhs = [] ∧ args = [] then s.emit (.mark .fail)
+  else if f = "brk.Allow" ∨ f = "lt.internalThrottle.allow" then
     -- the public entry point: `allow()` behind it has already recorded what `allowEvents` says (a drop when rejected;
     -- `progAllow` is tied to `allowEvents` by `tie_progAllow`)
     if lhs = ["promise", "err"] ∧ args = [] then
-      { (marksOf (allowEvents env.verdict)).foldl (fun s m => s.emit (.mark m)) s with
+      { (env.acceptMarks ++ marksOf (allowEvents env.verdict)).foldl (fun s m => s.emit (.mark m)) s with
         err := if env.verdict = .reject then .unavailable else .nil }
     else s.stick
   else if f = "b.markDrop" ∧ lhs = [] then s.emit (.mark .drop)
@@ -113,12 +149,18 @@ def callSem (env : Env) (s : St) (lhs : List String) (f : String) (args : List S
     if env.nextUnwinds then { s1 with ending := some .unwinding } else s1
   else if f = "w.WriteHeader" then
     if args = ["http.StatusServiceUnavailable"] then s.emit .wrote503 else s.stick
+  else if (f = "b.history" ∧ lhs = ["history"] ∧ args = []) ∨ (f = "b.lastPass.Load" ∧ lhs = ["lastPass"] ∧ args = []) then s
+  else if f = "b.lastPass.Set" then
+    if lhs = [] ∧ args = ["timex.Now()"] then { s with lastPassSets := s.lastPassSets + 1 } else s.stick
   else if effectFree f ∧ lhs = [] then s
   else s.stick
 
 /-- meaning of a condition; `none` = the interpreter does not know it -/
 def condSem (env : Env) (s : St) (c : String) : Option Bool :=
-  if c = "err != nil" then some (s.err ≠ .nil)
+  if c = "err != nil" then some (errNonNil env s)
+  else if c = "!accept && err != nil" then some (!s.acceptVar && errNonNil env s)
+  else if c = "errors.Is(err, ErrServiceUnavailable)" then
+    some (s.err = .unavailable || (s.err = .req && (env.outcome = .brk || env.outcome = .wbrk)))
   else if c = "fallback != nil" then some env.hasFallback
   else if c = "succ" then some s.succ
   else if c = "acceptable(err)" then (if s.err = .req then some (acceptable env.custom env.outcome) else none)
@@ -126,7 +168,14 @@ def condSem (env : Env) (s : St) (c : String) : Option Bool :=
     -- the recorded code is the handler's iff `next` was served with the wrapper; otherwise it still is the 200 the
     -- wrapper starts with (the comparison itself is the extracted `restAcceptCond`)
     some (if s.cwSeesNext then env.acceptIfSeen else restAcceptCond 200 500)
+  else if c = "dropRatio <= 0" then some (!env.throttled)
+  else if c = "lastPass > 0 && timex.Since(lastPass) > forcePassDuration" then some env.forced
+  else if c = "b.proba.TrueOnProba(dropRatio)" then some env.drawLess
   else none
+
+/-- the float-valued locals of `accept()`: assigning them has no effect of its own (their arithmetic is tied
+separately, `tie_dropRatio0/1`) -/
+def floatLocal (x : String) : Bool := x = "w" || x = "weightedAccepts" || x = "dropRatio"
 
 /-- run the tokens until a return / an unwinding request / the end of the list (structural in `fuel`) -/
 def exec (env : Env) : Nat → List Tok → St → St
@@ -136,9 +185,15 @@ def exec (env : Env) : Nat → List Tok → St → St
     if s.stuck ∨ s.ending.isSome then s else
     match t with
     | .call lhs f args => exec env n r (callSem env s lhs f args)
-    | .set lhs rhs => if lhs = "succ" ∧ rhs = "true" then exec env n r { s with succ := true } else s.stick
-    | .var name ty => if name = "succ" ∧ ty = "bool" then exec env n r { s with succ := false } else s.stick
+    | .set lhs rhs =>
+      if lhs = "succ" ∧ rhs = "true" then exec env n r { s with succ := true }
+      else if floatLocal lhs then exec env n r s else s.stick
+    | .var name ty =>
+      if name = "succ" ∧ ty = "bool" then exec env n r { s with succ := false }
+      else if floatLocal name ∧ ty = "float64" then exec env n r s else s.stick
     | .ifB c =>
+      -- evaluating `TrueOnProba` consumes a draw
+      let s := if c = "b.proba.TrueOnProba(dropRatio)" then { s with draws := s.draws + 1 } else s
       match condSem env s c with
       | some true => exec env n r s
       | some false => exec env n (skipThen 0 r) s
@@ -158,8 +213,8 @@ def runDefer (env : Env) (s : St) (body : List Tok) : St :=
   if s'.ending.isSome ∨ ¬ s'.defers.isEmpty then s'.stick else { s' with ending := s.ending }
 
 /-- the whole function: body, then the deferred bodies last-in-first-out (`defers` is kept newest first) -/
-def run (env : Env) (prog : List Tok) : St :=
-  let s := exec env (prog.length + 1) prog {}
+def run (env : Env) (prog : List Tok) (s0 : St := {}) : St :=
+  let s := exec env (prog.length + 1) prog s0
   s.defers.foldl (runDefer env) { s with defers := [] }
 
 /-! ### reading the result as the model's event lists -/
@@ -171,9 +226,9 @@ def evOf : PEv → Option Ev
   | .wrote503 => none
 
 /-- `doReq(req, fallback, acceptable) error` -/
-def runDoReq (prog : List Tok) (v : Verdict) (e : Entry) (o : Outcome) : Option (List Ev) :=
+def runDoReq (acc prog : List Tok) (v : Verdict) (e : Entry) (o : Outcome) : Option (List Ev) :=
   let env : Env := { verdict := v, hasFallback := e.hasFallback, custom := e.custom, outcome := o,
-                     nextUnwinds := false, acceptIfSeen := false }
+                     nextUnwinds := false, acceptIfSeen := false, acceptMarks := marksIn acc }
   let s := run env prog
   if s.stuck ∨ s.evs.contains .wrote503 then none else
   match s.ending with
@@ -184,9 +239,9 @@ def runDoReq (prog : List Tok) (v : Verdict) (e : Entry) (o : Outcome) : Option 
   | _ => none
 
 /-- `allow() (internalPromise, error)`: `return nil, err` / `return <promise>, nil` -/
-def runAllow (prog : List Tok) (v : Verdict) : Option (List Ev) :=
+def runAllow (acc prog : List Tok) (v : Verdict) : Option (List Ev) :=
   let env : Env := { verdict := v, hasFallback := false, custom := false, outcome := .ok,
-                     nextUnwinds := false, acceptIfSeen := false }
+                     nextUnwinds := false, acceptIfSeen := false, acceptMarks := marksIn acc }
   let s := run env prog
   if s.stuck then none else
   match s.ending with
@@ -196,15 +251,59 @@ def runAllow (prog : List Tok) (v : Verdict) : Option (List Ev) :=
     else none
   | _ => none
 
+/-- `accept() error`: the verdict, how often `lastPass` was set, how many draws were consumed -/
+def runAccept (prog : List Tok) (throttled forced drawLess : Bool) : Option (Verdict × Nat × Nat) :=
+  let env : Env := { verdict := .pass, hasFallback := false, custom := false, outcome := .ok, nextUnwinds := false,
+                     acceptIfSeen := false, throttled := throttled, forced := forced, drawLess := drawLess }
+  let s := run env prog
+  if s.stuck ∨ ¬ s.evs.isEmpty then none else
+  match s.ending with
+  | some (.returned ["nil"]) => some (.pass, s.lastPassSets, s.draws)
+  | some (.returned ["ErrServiceUnavailable"]) => some (.reject, s.lastPassSets, s.draws)
+  | _ => none
+
+/-- the closure `loggedThrottle.doReq` hands to the inner `doReq` in place of `acceptable`: called with the request's
+result, it must answer what `acceptable` answers (its logging has no effect on the accounting) -/
+def runClosure (prog : List Tok) (custom : Bool) (o : Outcome) : Option Bool :=
+  let env : Env := { verdict := .pass, hasFallback := false, custom := custom, outcome := o, nextUnwinds := false,
+                     acceptIfSeen := false }
+  let s := run env prog { err := .req }
+  if s.stuck ∨ ¬ s.evs.isEmpty then none else
+  match s.ending with
+  | some (.returned ["accept"]) => some s.acceptVar
+  | _ => none
+
+/-- `logError(err) error`: what it returns for an argument `errv` (nothing may be recorded) -/
+def runLogError (prog : List Tok) (errv : Val) (o : Outcome) : Option Val :=
+  let env : Env := { verdict := .pass, hasFallback := false, custom := false, outcome := o, nextUnwinds := false,
+                     acceptIfSeen := false }
+  let s := run env prog { err := errv }
+  if s.stuck ∨ ¬ s.evs.isEmpty then none else
+  match s.ending with
+  | some (.returned ["err"]) => some s.err
+  | _ => none
+
+/-- the marks a (return-less) wrapper body records and the values it returns, on a given verdict -/
+def runWrapper (acc prog : List Tok) (v : Verdict) : Option (List Mark × List String) :=
+  let env : Env := { verdict := v, hasFallback := false, custom := false, outcome := .ok, nextUnwinds := false,
+                     acceptIfSeen := false, acceptMarks := marksIn acc }
+  let s := run env prog
+  if s.stuck then none else
+  let ms := s.evs.filterMap fun | .mark m => some m | _ => none
+  match s.ending with
+  | none => some (ms, [])
+  | some (.returned vals) => some (ms, vals)
+  | _ => none
+
 def sevOf : PEv → Option SEv
   | .ranReq => some .ranReq
   | .mark m => some (.mark m)
   | _ => none
 
 /-- the handler closure of `BreakerHandler`: no result; the caller sees the 503 or whatever `next` wrote -/
-def runRest (prog : List Tok) (v : Verdict) (nextUnwinds acceptIfSeen : Bool) : Option (List SEv) :=
+def runRest (acc prog : List Tok) (v : Verdict) (nextUnwinds acceptIfSeen : Bool) : Option (List SEv) :=
   let env : Env := { verdict := v, hasFallback := false, custom := false, outcome := .ok,
-                     nextUnwinds := nextUnwinds, acceptIfSeen := acceptIfSeen }
+                     nextUnwinds := nextUnwinds, acceptIfSeen := acceptIfSeen, acceptMarks := marksIn acc }
   let s := run env prog
   if s.stuck ∨ s.evs.contains .ranFallback then none else
   let out : SiteRet := if s.evs.contains .wrote503 then .http503 else .same
